@@ -551,7 +551,16 @@ pre_type(struct emu *emu)
 		return -1;
 	}
 
+	/* The jumbo payload must hold the data size, the type id and a
+	 * terminated label */
+	size_t size = emu->ev->payload_size;
+	if (size < 4 + 4 + 1 || ((const char *) emu->ev->payload)[size - 1] != '\0') {
+		err("malformed task type event");
+		return -1;
+	}
+
 	const uint8_t *data = &emu->ev->payload->jumbo.data[0];
+
 	uint32_t typeid;
 	memcpy(&typeid, data, 4); /* May be unaligned */
 	data += 4;
